@@ -130,7 +130,72 @@ def gen_ChunkConsts():
     return "".join(out), {c.path: c.digest, k.path: k.digest}
 
 
+def byte_array_const(src, name):
+    m = src.one(r"\bconst %s\s*:\s*\[u8;\s*32\]\s*=\s*\[([^\]]*)\]" % re.escape(name), "key " + name)
+    vals = [int(v) for v in m.group(1).replace(" ", "").split(",") if v]
+    if len(vals) != 32 or any(v < 0 or v > 255 for v in vals):
+        raise TranslateError("%s is not 32 bytes" % name)
+    return vals
+
+
+def gen_HashConsts():
+    dh = Src(os.path.join(REPO, "merklehash/src/data_hash.rs"))
+    cv = Src(os.path.join(REPO, "mdb_shard/src/chunk_verification.rs"))
+    mc = Src(os.path.join(REPO, "merkledb/src/constants.rs"))
+    im = Src(os.path.join(REPO, "merkledb/src/internal_methods.rs"))
+    mn = Src(os.path.join(REPO, "merkledb/src/merklenode.rs"))
+    ag = Src(os.path.join(REPO, "merkledb/src/aggregate_hashes.rs"))
+    mm = Src(os.path.join(REPO, "merkledb/src/merklememdb.rs"))
+    out = [PRELUDE]
+    for name, src in [("DATA_KEY", dh), ("INTERNAL_NODE_HASH", dh), ("VERIFICATION_KEY", cv)]:
+        out.append("Definition %s : list N := [%s].\n" % (name, "; ".join(str(v) for v in byte_array_const(src, name))))
+    bf = rust_int(plain_const(mc, "MEAN_TREE_BRANCHING_FACTOR"))
+    out.append("Definition MEAN_TREE_BRANCHING_FACTOR : N := %d.\n" % bf)
+    for nm in ["TARGET_CDC_CHUNK_SIZE", "MAXIMUM_CHUNK_MULTIPLIER"]:
+        out.append("Definition MERKLEDB_%s : N := %d.\n" % (nm, rust_int(plain_const(mc, nm))))
+    # cut rule of merge_one_level
+    body = im.fn_body("merge_one_level")
+    m = re.search(r"let num_children_so_far = idx - cur_children_start_idx; (?:#\[[^\]]*\] )?if (.+?) \{ let parent_node = node_from_children\(db, &nodes\[cur_children_start_idx\.\.=idx\], cur_children_total_len\);", body)
+    if not m:
+        raise TranslateError("cut rule of merge_one_level not found")
+    cond = m.group(1).replace("test_hash[3]", "test_hash_3").replace("(MEAN_TREE_BRANCHING_FACTOR as usize)", "MEAN_TREE_BRANCHING_FACTOR")
+    tr = ExprTr({"num_children_so_far": "num_children_so_far", "test_hash_3": "test_hash_3", "MEAN_TREE_BRANCHING_FACTOR": "MEAN_TREE_BRANCHING_FACTOR",
+                 "idx": "idx", "total_children": "total_children"})
+    out.append("Definition merkle_cut (num_children_so_far test_hash_3 idx total_children : N) : bool :=\n  %s.\n" % tr.tr(cond))
+    for p in ["cur_children_total_len += node.len(); let test_hash = node.hash();", "cur_children_total_len = 0; cur_children_start_idx = idx + 1;"]:
+        if p not in body:
+            raise TranslateError("merge_one_level bookkeeping changed: %r" % p)
+    mb = im.fn_body("merge")
+    for p in ["while nodes.len() > 1 {", "let (parent_of_node, mut parents) = merge_one_level(db, &nodes);", "nodes = std::mem::take(&mut parents);", "nodes[0].clone()"]:
+        if p not in mb:
+            raise TranslateError("merge changed: %r" % p)
+    # child text format and key use
+    mn.pin('writeln!(buf, "{:x} : {}", node.hash(), node.len()).unwrap();', "child text format")
+    mn.pin("compute_internal_node_hash(buf.as_bytes())", "interior hash")
+    dh.pin('format!("{:016x}{:016x}{:016x}{:016x}", self.0[0], self.0[1], self.0[2], self.0[3])', "hex format")
+    dh.pin("let digest = blake3::keyed_hash(&DATA_KEY, slice);", "data hash key")
+    dh.pin("let digest = blake3::keyed_hash(&INTERNAL_NODE_HASH, slice);", "internal hash key")
+    dh.pin("Self::from(*blake3::keyed_hash(&key.into(), self.as_bytes()).as_bytes())", "hmac")
+    dh.pin("self[3] % rhs", "Rem uses word 3")
+    cv.pin("let range_hash = blake3::keyed_hash(&VERIFICATION_KEY, combined.as_slice());", "range hash")
+    ag.pin("let salted_hash = blake3::keyed_hash(salt, hash.as_bytes());", "salt")
+    ag.pin("if chunks.is_empty() { return MerkleHash::default(); }", "empty cas list", count=1)
+    ag.pin("if chunks.is_empty() { return Ok(MerkleHash::default()); }", "empty file list", count=1)
+    mm.pin("ret.hashdb.insert(MerkleHash::default(), 0);", "node 0 is the zero hash")
+    # HashedWrite::write: does it hash the whole buffer before the (possibly short) inner write?
+    wb = dh.fn_body("write")
+    if wb.strip() == "self.hasher.update(buf); self.writer.write(buf)":
+        fact = "true"
+    elif re.fullmatch(r"let (\w+) = self\.writer\.write\(buf\)\?; self\.hasher\.update\(&buf\[\.\.\1\]\); Ok\(\1\)", wb.strip()):
+        fact = "false"
+    else:
+        raise TranslateError("HashedWrite::write has an unrecognised shape: %r" % wb.strip())
+    out.append("Definition hashed_write_hashes_whole_buffer : bool := %s.\n" % fact)
+    return "".join(out), {x.path: x.digest for x in (dh, cv, mc, im, mn, ag, mm)}
+
+
 GROUPS = {
     "GearTable": gen_GearTable,
     "ChunkConsts": gen_ChunkConsts,
+    "HashConsts": gen_HashConsts,
 }
